@@ -438,6 +438,13 @@ func dbCell(f *FDesc, x interface{}) Val {
 }
 
 func mapCell(f *FDesc, x interface{}) Val {
+	// a map read holds driver values: a value still typed as one of the model's own types
+	// (a custom Valuer that was not unwrapped) is reported as such, never converted here
+	if x != nil {
+		if t := reflect.TypeOf(x); t.PkgPath() == "main" || (t.Kind() == reflect.Ptr && t.Elem().PkgPath() == "main") {
+			return vStr(fmt.Sprintf("!typed:%T", x))
+		}
+	}
 	if p, ok := x.(*interface{}); ok && p != nil {
 		x = *p
 	}
